@@ -905,6 +905,9 @@ func unmarshalPrefixes(segs [][]byte, what string, r *vlib.Rec) {
 // ---------------------------------------------------------------------------
 
 func main() {
+	// live heap is tiny and every packed Decoder allocates a 4 KiB bufio
+	// buffer: collect less often (no oracle depends on GC timing)
+	debug.SetGCPercent(2000)
 	vlib.Main(vlib.Spec{
 		ID:    "C14",
 		Level: "exploration",
